@@ -1,7 +1,6 @@
-"""C01 - calling a generated trait method is calling the original function."""
-from xeng import progs
+from xeng import progs, progs2, progs3
 from . import _common
 
 
 def run(out):
-    _common.run(out, 'C01', x_corpora=[(progs.c01_corpus, 'c01')], s_props=['C01'])
+    _common.run(out, 'C01', x=[dict(fn=progs.c01_corpus, name='c01')], s_props=['C01'])
